@@ -730,6 +730,19 @@ class NodeList(FastTypedDict):
 
     # --------------------------------------------------------------------------
     #
+    def _get_node(self, node_index: int) -> Node:
+
+        # node indexes are not necessarily positions in `self.nodes`: the
+        # resource manager may have dropped nodes from the node list
+        for node in self.nodes:
+            if node.index == node_index:
+                return node
+
+        raise ValueError('invalid node index %s' % node_index)
+
+
+    # --------------------------------------------------------------------------
+    #
     def find_slots(self, rr: RankRequirements, n_slots:int = 1) -> List[Slot]:
 
         self._assert_rr(rr, n_slots)
@@ -765,7 +778,7 @@ class NodeList(FastTypedDict):
         if len(slots) != n_slots:
             # free whatever we got
             for slot in slots:
-                node = self.nodes[slot.node_index]
+                node = self._get_node(slot.node_index)
                 node.deallocate_slot(slot)
             self.__last_failed_rr__ = rr
             self.__last_failed_n__  = n_slots
@@ -782,7 +795,7 @@ class NodeList(FastTypedDict):
 
         for slot in slots:
 
-            node = self.nodes[slot.node_index]
+            node = self._get_node(slot.node_index)
             node.deallocate_slot(slot)
 
         if self.__last_failed_rr__:
